@@ -115,18 +115,25 @@ fn drive(conn: &mut HttpConnection<UnixStream>, tx: &mut UnixStream, segs: &[Vec
         if !s.is_empty() {
             tx.write_all(s).unwrap();
         }
-        match conn.try_read() {
-            Ok(()) => {}
-            Err(e) => {
-                let k = err_kind(&e);
-                if k != "StreamReadError" {
-                    drain_reqs(conn, &mut o.delivered);
-                    o.error = Some(k);
+        // read until the socket is empty (a read returns at most the free space of the 1024-byte buffer);
+        // for an empty segment this is a single read that finds no data
+        let mut stop = false;
+        loop {
+            match conn.try_read() {
+                Ok(()) => { drain_reqs(conn, &mut o.delivered); }
+                Err(e) => {
+                    let k = err_kind(&e);
+                    if k != "StreamReadError" {
+                        drain_reqs(conn, &mut o.delivered);
+                        o.error = Some(k);
+                        stop = true;
+                    }
                     break;
                 }
             }
         }
         drain_reqs(conn, &mut o.delivered);
+        if stop { break; }
     }
     // what has been queued for writing: write it out and parse status lines
     let mut wire = vec![];
